@@ -61,6 +61,7 @@ class Universe:
         self.axioms = []         # strings (closed spec expressions)
         self.uf = {}             # name -> z3 Function
         self.assumptions = []    # human-readable list for evidence
+        self.class_names = set() # names usable as class constants (isinstance / observer arguments)
 
     # ---- classes
     def class_id(self, name):
@@ -118,6 +119,9 @@ class Universe:
             self.modules[cname] = rel
         for key, c in getattr(mod, "CONTRACTS", {}).items():
             self.contracts[key] = c
+        self.class_names.update(getattr(mod, "CLASS_NAMES", []))
+        if hasattr(mod, "native_globals"):
+            self.__dict__.setdefault("native_globals", {}).update(mod.native_globals())
         for ax in getattr(mod, "AXIOMS", []):
             self.axioms.append(ax)
         for a in getattr(mod, "ASSUMPTIONS", []):
